@@ -204,7 +204,20 @@ def run_scenario(conf: S.Conf, writes, rng, thorough, stride=1, attacks=None):
             recs.append(rec)
         return legit, recs, split_blob(nb_blob)[1]
 
-    return vtime.run(go)
+    # a broken implementation may feed corrupted bytes to pickle.loads: cap the address space while the real code
+    # runs (soft limit only, restored afterwards so that the Lean tools started later are not affected)
+    soft, hard = resource.getrlimit(resource.RLIMIT_AS)
+    try:
+        resource.setrlimit(resource.RLIMIT_AS, (16 << 30, hard))
+    except (ValueError, OSError):
+        pass
+    try:
+        return vtime.run(go)
+    finally:
+        try:
+            resource.setrlimit(resource.RLIMIT_AS, (soft, hard))
+        except (ValueError, OSError):
+            pass
 
 
 # ----------------------------------------------------------------------------------------------------
@@ -419,10 +432,6 @@ def derive_attack(a, legit, conf):
 
 def run(chk: Check) -> int:
     S.register_boxes()
-    try:
-        resource.setrlimit(resource.RLIMIT_AS, (12 << 30, resource.RLIM_INFINITY))
-    except (ValueError, OSError):
-        pass
     proof = proof_stage(PROP, "driver_c10", chk.thorough) if not getattr(chk, "skip_proof", False) else None
     found = 0
     try:
